@@ -34,7 +34,7 @@ BOUNDS = {
              'mnem(6) x unit(5) x valu(11) x desc(7) on one well / curve / parameter line in canonical layout and, for '
              'lines one field away from the default, every single header deviation; STRT and version line sweeps; cell '
              'family: full product of 7 cell texts over the non-index cells of 2x1, 2x2, 2x3, 3x1 (curves x frames), both '
-             'NULLs, canonical + 13 data layouts; index styles; smallest content (1 curve, 1 frame): full product of header '
+             'NULLs, canonical + up to 14 data layouts (wrap modes, separators, leading/trailing blanks, no final newline, wrap x separator); 5 index number styles; smallest content (1 curve, 1 frame): full product of header '
              'paddings 3x3x2x3x3x3 x wrap2 x dlead2 x dtrail2 x titles2 x eol2 x 5 gap fillings, and every subset of its '
              '13 gaps for each of the 4 fillers',
     'thorough': 'as quick with <=2 deviations for every shape content, field product under every single header deviation, '
@@ -57,6 +57,9 @@ ASSUMPTIONS = [
     'masking of null values in the frame array is not in the statement: the raw array data is compared',
     'the WRAP value itself (yes/no) is the one observation that depends on the layout and is excluded from the differential oracle',
     "header values spelled like Python-only numbers ('1_000', 'Infinity', 'nan') are not generated",
+    'when a curve mnemonic is read back as a number/bool equal to another channel index, FrameArray stores data in the wrong '
+    'channel and leaves one channel uninitialised; those cells are reported once as mnem_type_converted/'
+    'channel_data_misassigned and their (varying) values are not compared or hashed, to keep runs deterministic',
 ]
 
 # ---------------------------------------------------------------------------------------------------------------
@@ -332,8 +335,9 @@ def evaluate(content, layout, text=None):
         devs[('exception',)] = classify_exception(content, layout, exc)
     else:
         exp = expected_with_lookup(content, layout)
-        for key in obs:     # uninitialised memory: keep the observation deterministic
-            if key[0] == 'A' and len(key) == 3 and isinstance(key[2], int) and key[1] in _hijacked(obs):
+        hj = _hijacked(obs)
+        for key in (obs if hj else ()):     # uninitialised memory: keep the observation deterministic
+            if key[0] == 'A' and len(key) == 3 and isinstance(key[2], int) and key[1] in hj:
                 obs[key] = 'misassigned'
         for key in sorted(set(exp) | set(obs), key=repr):
             want, got = exp.get(key), obs.get(key)
